@@ -17,7 +17,10 @@ def gen_desc(verif_seed: int, i: int, tier: str = "quick") -> dict:
     rs = gen.run_seed(verif_seed, PROPERTY, i)
     rng = random.Random(rs)
     udesc = gen_universe(rng, n_collections=rng.choice([1, 2, 2]), p_examples=rng.choice([0.4, 0.7, 0.9]), p_header_param=0.7, links=False,
-                         example_variants=True)
+                         example_variants=True, p_path_level=0.35)
+    for c in udesc["collections"]:
+        if c.get("path_level") and c["path_level"].get("extra") and (rs >> 3) % 2 == 0:
+            c["path_level"]["example"] = True
     cfg = {
         "entry": rng.choice(["engine", "cli"]),
         "phases": ["examples"],
@@ -60,7 +63,7 @@ RULE_TEXT = (
     "one case = one simulated examples-phase run over a universe with examples in seeded placements (parameter-level example / "
     "examples with 1-3 entries on query, header and path parameters, schema-level example on a parameter, media-type example / "
     "examples with 1-2 bodies, property-level example on an inline body schema, also one per anyOf/oneOf branch; examples behind "
-    "$ref to components/examples; one externalValue fetched from the simulated peer; JSON-distinct twins such as 1 and 1.0; the same "
+    "$ref to components/examples; one externalValue fetched from the simulated peer; an example that lives only on a path-level (shared) parameter; JSON-distinct twins such as 1 and 1.0; the same "
     "placements written as Swagger 2.0 x-example / x-examples; several parameters with different numbers of "
     "examples together with body examples; required parameters without examples); every reference example must arrive verbatim "
     "at the peer in >= 1 examples-phase request of its operation (or an error for that operation must be delivered), such requests "
@@ -73,7 +76,7 @@ ASSUMPTIONS = [
     "allOf-composed examples and examples found in responses are not in the repertoire; values are compared with JSON (type-strict) equality",
 ]
 EXPECTED_PROBES = ["param_examples", "body_examples", "property_examples", "ops_without_examples", "multi_example_params_with_body",
-                   "external_examples", "twins", "ref_examples", "branch_examples", "swagger2"]
+                   "external_examples", "twins", "ref_examples", "branch_examples", "swagger2", "path_level_examples"]
 
 
 def strict_eq(a, b) -> bool:
@@ -128,7 +131,8 @@ class C17Profile(Profile):
               "twins": sum(1 for c in u.desc["collections"] for x in c.get("examples") or [] if x.get("twin")),
               "ref_examples": sum(1 for c in u.desc["collections"] for x in c.get("examples") or [] if x.get("ref")),
               "branch_examples": sum(1 for c in u.desc["collections"] for x in c.get("examples") or [] if x.get("branch")),
-              "swagger2": int(u.desc.get("spec") == "2.0")}
+              "swagger2": int(u.desc.get("spec") == "2.0"),
+              "path_level_examples": sum(1 for c in u.desc["collections"] if (c.get("path_level") or {}).get("example"))}
         ctx.extra["c17_stats"] = st
         if ctx.loop_exception is not None:
             v("H0", f"run aborted: {type(ctx.loop_exception).__name__}: {str(ctx.loop_exception)[:200]}", what="aborted")
